@@ -65,7 +65,7 @@ def experiments(thorough):
             ('H2 2 clients + environment events, bound 2', 'h2', [2, 1, 1, 0], 2, 4),
             ('H2 2 clients, 2 cycles, asks', 'h2', [2, 2, 0, 2], 2, 4),
             ('H2 3 clients, asks', 'h2', [3, 1, 0, 2], 1, 4),
-            ('H2 3 clients, 2 cycles, asks', 'h2', [3, 2, 0, 2], 0, 4),
+            ('H2 3 clients, other + asks', 'h2', [3, 1, 0, 3], 0, 4),
         ]
     return exps
 
